@@ -244,12 +244,18 @@ def range_bodies(prog):
     return [x for x in cand if x.id in reach]
 
 
-def _const_bool_args(c, callee):
+def _const_bool_args(c, callee, known=None, lift=None):
+    """bool parameters of the callee whose value is fixed at this call: a literal, or a bool parameter of the caller that is itself
+    fixed (`known`) — a flag handed down two levels is still the flag"""
     out = {}
     for i, a in enumerate(c.args()):
-        a = deep_strip(a)
-        if a[0] == 'const' and a[1] in (0, 1, True, False) and i + 1 <= callee.arg_count and callee.local_ty(i + 1).s == "bool":
+        a = deep_strip(lift(a) if lift else a)
+        if not (i + 1 <= callee.arg_count and callee.local_ty(i + 1).s == "bool"):
+            continue
+        if a[0] == 'const' and a[1] in (0, 1, True, False):
             out[i + 1] = bool(a[1])
+        elif a[0] == 'param' and known and a[1] in known:
+            out[i + 1] = known[a[1]]
     return out
 
 
@@ -269,7 +275,7 @@ def _rmw_kinds(prog, b, consts, depth=0, seen=None):
         eff = prog.__dict__["_c09_eff"] = effects.Effects(prog)
     for fb in prog.family(b):
         for c in fb.calls():
-            if consts:
+            if True:
                 dead = False
                 # facts of a closure of b are read in b's own terms (a captured `set` is b's parameter)
                 try:
@@ -281,6 +287,8 @@ def _rmw_kinds(prog, b, consts, depth=0, seen=None):
                         t = deep_strip(r[1])
                         if t[0] == 'param' and t[1] in consts and bool(r[2]) != consts[t[1]]:
                             dead = True
+                        if t[0] == 'const' and t[1] in (0, 1, True, False) and bool(t[1]) != bool(r[2]):
+                            dead = True         # a branch on a literal (an inlined helper called with `true`): the other arm cannot run
                     if r[0] == 'cmp' and r[1] in ('Eq', 'Ne'):
                         t, k = deep_strip(r[2]), deep_strip(r[3])
                         if t[0] == 'param' and t[1] in consts and k[0] == 'const' and k[1] in (0, 1):
@@ -301,7 +309,8 @@ def _rmw_kinds(prog, b, consts, depth=0, seen=None):
                 continue
             tb = prog.by_id.get(c.target) if c.target else None
             if tb is not None and tb.self_adt == BITMAP and tb.kind != "Closure" and tb is not b:
-                out += _rmw_kinds(prog, tb, _const_bool_args(c, tb), depth + 1, seen)
+                lift = (lambda x, fb=fb: eff.in_parent(fb, x)[1]) if fb is not b else None
+                out += _rmw_kinds(prog, tb, _const_bool_args(c, tb, consts, lift), depth + 1, seen)
     return out
 
 
